@@ -9,6 +9,7 @@ import Driver.C14
 import Driver.THash
 import Driver.PHash
 import Driver.TH
+import Driver.GroupD
 /-! `mlsmodel <mode>`: reads queries from stdin, prints one model answer per line. -/
 
 def splitWs (line : String) : List String :=
@@ -41,6 +42,7 @@ def main (args : List String) : IO UInt32 := do
   | ["c14"] => loopS stdin stdout (fun (_ : Unit) ws => ((), Driver.C14.handle ws)) (); return 0
   | ["phash"] => loopS stdin stdout (fun (_ : Unit) ws => ((), Driver.PHash.handle ws)) (); return 0
   | ["th"] => loopS stdin stdout (fun (_ : Unit) ws => ((), Driver.TH.handle ws)) (); return 0
+  | ["group"] => loopS stdin stdout Driver.GroupD.step {}; return 0
   | ["thash"] => loopS stdin stdout (fun (_ : Unit) ws => ((), Driver.THash.handle ws)) (); return 0
   | ["c13"] => loopS stdin stdout Driver.C13.step {}; return 0
   | _ => IO.eprintln "usage: mlsmodel <mode>"; return 2
